@@ -171,6 +171,92 @@ static std::string dump_root(const Root &r)
 }
 
 // ---------------------------------------------------------------------------
+// A second, fixed application whose port tables - names AND metadata - are
+// produced by the library's macros at compile time (rDepends lists of 1..6
+// entries, rDefaultDepends + rPresets / rPresetsAt, rOptions with ten entries,
+// rLinear, rEnabledBy on an rRecur sub-tree, a repetition default).  Tree
+// description "static".  tools/props/save_common.py (static_app) describes the
+// same application by hand; the `macro` stream compares every metadata block
+// the macros produced byte for byte with that description.
+struct MSub {
+    static const Ports ports;
+    int sa, sb;
+    MSub() : sa(1), sb(2) {}
+    void on_change(RtData &) {}
+};
+struct MObj {
+    static const Ports ports;
+    int m0, m1, m2, m3, m4, m5, m6;
+    int mo, mp, mq;
+    float mf;
+    bool mt;
+    char ma[4];
+    MSub ms;
+    MObj() : m0(10), m1(11), m2(12), m3(13), m4(14), m5(15), m6(16), mo(0), mp(20), mq(30), mf(0.5f), mt(false)
+    { for(char &c : ma) c = 3; }
+    void on_change(RtData &d) {
+        if(port_stem(d.port->name) != "mo") return;
+        mp = (mo >= 0 && mo <= 4) ? 20 + mo : 29;
+        mq = (mo >= 2 && mo <= 5) ? 30 + mo : 30;
+    }
+    void dump(const std::string &base, std::vector<std::string> &out) const {
+        auto I = [&](const char *n, int v) { out.push_back(base + n + "=" + std::to_string(v)); };
+        I("m0", m0); I("m1", m1); I("m2", m2); I("m3", m3); I("m4", m4); I("m5", m5); I("m6", m6);
+        I("mo", mo); I("mp", mp); I("mq", mq);
+        out.push_back(base + "mf=" + bits_of_f(mf));
+        I("mt", mt);
+        out.push_back(base + "ma=" + std::to_string((int)ma[0]) + ":" + std::to_string((int)ma[1]) + ":" +
+                      std::to_string((int)ma[2]) + ":" + std::to_string((int)ma[3]));
+        I("ms/sa", ms.sa); I("ms/sb", ms.sb);
+    }
+};
+#define rObject MSub
+const Ports MSub::ports = {
+    rParamI(sa, rDefault(1), "d"),
+    rParamI(sb, rDefault(2), rDepends(sa), "d"),
+};
+#undef rObject
+#define rObject MObj
+const Ports MObj::ports = {
+    rParamI(m0, rDefault(10), "d"),
+    rParamI(m1, rDefault(11), rDepends(m0), "d"),
+    rParamI(m2, rDepends(m0, m1), rDefault(12), "d"),
+    rParamI(m3, rDefault(13), rDepends(m2, m1, m0), "d"),
+    rParamI(m4, rLinear(-100, 100), rDefault(14), rDepends(m0, m1, m2, m3), "d"),
+    rParamI(m5, rDefault(15), rDepends(m4, m3, m2, m1, m0), "d"),
+    rParamI(m6, rDefault(16), rDepends(m5, m4, m3, m2, m1, m0), "d"),
+    rOption(mo, rOptions(oa, ob, oc, od, oe, og, oh, oi, oj, ok), rDefault(oa), "d"),
+    rParamI(mp, rDefaultDepends(mo), rPresets(20, 21, 22, 23, 24), rDefault(29), "d"),
+    rParamI(mq, rDefaultDepends(mo), rPresetsAt(2, 32, 33, 34, 35), rDefault(30), rDepends(mp, m0, m1, m6), "d"),
+    rParamF(mf, rLinear(-1.5, 2.5), rDefault(0.5), "d"),
+    rToggle(mt, rDefault(false), "d"),
+    rArrayI(ma, 4, rDefault([4x3]), "d"),
+    rRecur(ms, rEnabledBy(mt), "d"),
+};
+#undef rObject
+static std::string dump_root(const MObj &r)
+{
+    std::vector<std::string> out;
+    r.dump("/", out);
+    std::string s;
+    for(size_t i = 0; i < out.size(); ++i) s += (i ? "," : "") + out[i];
+    return s;
+}
+// name and metadata block of the k-th macro-made port (MObj's table, then MSub's)
+static std::string macro_port(size_t k)
+{
+    const Port *p = nullptr;
+    if(k < MObj::ports.ports.size()) p = &MObj::ports.ports[k];
+    else if(k - MObj::ports.ports.size() < MSub::ports.ports.size()) p = &MSub::ports.ports[k - MObj::ports.ports.size()];
+    if(!p) return "NOPORT";
+    // the block ends with the empty title: walk the entries by hand
+    const char *m = p->metadata ? p->metadata : "";
+    const char *e = m;
+    while(*e) { e += strlen(e) + 1; }
+    return "name=" + hex(p->name, strlen(p->name)) + " meta=" + hex(m, (size_t)(e - m) + 1);
+}
+
+// ---------------------------------------------------------------------------
 // one parameter message   <address>=<t><v>   t/v: i<dec> c<dec> f<hex8> T F s<hex> S<hex>
 struct Quiet : RtData {
     char locbuf[1024];
@@ -180,7 +266,7 @@ struct Quiet : RtData {
     void broadcast(const char *, const char *, ...) override {}
     void broadcast(const char *) override {}
 };
-static bool send_op(Root &root, const std::string &op)
+template<class R> static bool send_op(R &root, const std::string &op)
 {
     auto eq = op.find('=');
     if(eq == std::string::npos) return false;
@@ -204,7 +290,7 @@ static bool send_op(Root &root, const std::string &op)
     ExactBuf m(std::vector<uint8_t>(buf, buf + len));
     Quiet d;
     d.obj = &root;
-    Root::ports.dispatch((const char*)m.p, d, true);
+    R::ports.dispatch((const char*)m.p, d, true);
     return d.matches > 0;
 }
 
